@@ -163,7 +163,7 @@ def main(argv=None):
         errors.append(f"counterexample did not replay against the unpatched library (encoding/stub bug in the harness): {key} ({path})\n{out[-600:]}")
     # known findings that were expected but did not show up: report, do not fail
     seen_keys = set(by_key)
-    stale = [k for k in known['findings'] if k['property'] == pid and k['key'] not in seen_keys]
+    stale = [k for k in known['findings'] if k['property'] == pid and k['key'] not in seen_keys and k.get('tier', tier) == tier and not a.only]
 
     wall = time.time() - t0
     # ---- evidence -------------------------------------------------------------
